@@ -2107,13 +2107,44 @@ def section_trees(env, ctx, model):
                                  m[1] if m[0] == "err" else "model tree", oracle=tree_oracle)
 
 
+MODE_F32, ENGINE_F32 = "block", "block"
+
+def section_default_precision(env, ctx, model):
+    """DEFAULT-PRECISION stream (round 6): a subprocess WITHOUT jax_enable_x64 evaluates the property itself on the real code in the
+    library's default mode (float32 / complex64 / int32, dtype arguments omitted, weakly typed Python scalars); every record
+    that is not ok is a failing input of the property (the record IS the oracle's evaluation), never a model disagreement"""
+    import os
+    import subprocess
+    import sys
+
+    envv = {k: v for k, v in os.environ.items() if k != "JAX_ENABLE_X64"}
+    p = subprocess.run([sys.executable, str(common.VERIF / "harness" / "block_f32_worker.py")], input=json.dumps({"repo": str(common.REPO), "mode": MODE_F32, "seed": ctx.seed}),
+                       capture_output=True, text=True, env=envv, timeout=900)
+    try:
+        results = json.loads(p.stdout)["results"]
+    except Exception:  # noqa: BLE001
+        # the worker died: with the code under test in the traceback it is the implementation's failure, otherwise ours
+        if str(common.REPO) in p.stderr:
+            ctx.disagree(f"{ENGINE_F32}.default-precision", {"section": "default-precision", "worker": "died"}, p.stderr[-400:], "runs",
+                         oracle=lambda c: {"default_precision_worker": "died inside the code under test", "stderr_tail": p.stderr[-600:]})
+            return
+        raise common.Infra("default-precision worker failed: " + p.stderr[-500:])
+    for r in results:
+        ctx.case({"section": "default-precision", "case": r["case"]}, ("default-precision", r["case"]))
+        ctx.count(f"default-precision:{r['case'].split('/')[0]}:{'ok' if r['ok'] else 'FAILS'}")
+        if not r["ok"]:
+            fail = {"mode": "default precision (jax_enable_x64 off)", "case": r["case"], "detail": r["detail"]}
+            ctx.disagree(f"{ENGINE_F32}.default-precision", {"section": "default-precision", "case": r["case"]}, r["detail"], "per-block jax / scipy on the flattened problem in the same mode",
+                         oracle=lambda c, fail=fail: fail)
+
+
 def correspond(ctx, model):
     import time
 
     env = Env()
     timing = {}
     # the sections that evaluate the property itself on small objects come first: at most 5 violations are written out
-    for sec in (run_corpus, section_history, section_setitem, section_transparency, section_trees, section_names, section_reductions, section_creation,
+    for sec in (run_corpus, section_history, section_default_precision, section_setitem, section_transparency, section_trees, section_names, section_reductions, section_creation,
                 section_operators, section_nonlifted, section_methods, section_sequence, section_slices, section_setslice, section_wrappers, section_wrappers_exhaustive, section_pytree, section_random):
         t0 = time.time()
         try:
